@@ -19,7 +19,9 @@
     Not modelled: what mechanisms compute (their outcome is data: success, an
     error value, a panic), CEL evaluation (the program's result is data), rule
     matching (C02/C03; the lookup result is data), the reverse proxy transport
-    (the upstream is reachable and answers 200). *)
+    (the upstream either answers with a status or drops the connection after it
+    took the request, which is data of the request), the middlewares in front of
+    the service handler (CORS is not configured, see the assumptions of the check). *)
 From HV Require Import Base.Prelude Base.ErrChain C12.Model.
 Local Open Scope Z_scope.
 
@@ -38,14 +40,24 @@ Inductive cond := CVal (b : bool) | CErr (e : err) | CPanics (v : option err).
     conditionalSubjectHandler; [s_if = None] is the defaultExecutionCondition *)
 Record step := { s_if : option cond; s_out : outcome; s_continue : bool }.
 
-(** an error handler: the three real mechanisms, or a stub that fails / panics,
-    or a HYPOTHETICAL handler that reports success (returns nil) without
-    recording a pipeline error.  No such mechanism exists in heimdall (the three
+(** what an error handler's Execute does: the error it returns (None = nil)
+    together with the pipeline error it recorded in the request context (None =
+    none), or a panic *)
+Inductive eh_res :=
+| EhRet (ret : option err) (pipeline : option err)
+| EhPanic (v : option err).
+
+(** an error handler: the three real mechanisms; a stub that fails / panics; a
+    HYPOTHETICAL handler that reports success (returns nil) without recording a
+    pipeline error ([EhSilent]; no such mechanism exists in heimdall: the three
     real ones all call ctx.SetPipelineError before returning nil, see
-    [C12.Model.mech_exec]); it is in the model to make explicit what the veto of
-    a failed pipeline rests on, and so that the correspondence stream also
-    exercises the path "Finalize finds no recorded error". *)
-Inductive ehkind := EhReal (m : mechanism) | EhFails (e : err) | EhPanics (v : option err) | EhSilent.
+    [C12.Model.mech_exec]); and, for the theorems only (never generated), ANY
+    handler given by its semantics ([EhAny f]: what it returns / records / whether
+    it panics as an arbitrary function of the cause), so that "no error handler can
+    rescue" is not a statement about a closed list of handlers. *)
+Inductive ehkind :=
+| EhReal (m : mechanism) | EhFails (e : err) | EhPanics (v : option err) | EhSilent
+| EhAny (f : err -> eh_res).
 Record ehstep := { e_if : option cond; e_kind : ehkind }.
 
 Record rule := {
@@ -60,8 +72,16 @@ Inductive entry := Decision | Proxy | Envoy.
 (** service configuration: respond settings (C12) and the accepted code (0 = unset) *)
 Record config := { c_respond : cfg; c_accepted : Z }.
 
-(** the request, as far as this property is concerned *)
-Record request := { q_encoded_slash : bool }.   (* the raw path contains %2F *)
+(** what the upstream does with a forwarded request: answers with a status, or
+    takes the request and drops the connection without answering *)
+Inductive upstream_mode := UpOk (status : Z) | UpAbort.
+
+(** the request, as far as this property is concerned.  Method, headers, body,
+    credentials only matter through what the mechanisms and conditions make of
+    them, which is data of the rule's outcome vector. *)
+Record request := {
+  q_encoded_slash : bool;          (* the raw path contains %2F *)
+  q_upstream : upstream_mode }.    (* behaviour of the upstream, should the request get there *)
 
 (** ** Conditions *)
 
@@ -125,22 +145,23 @@ Fixpoint run_steps (l : list step) : stage_res :=
     trees of the correspondence stream therefore never contain [KOther 99]. *)
 Definition not_applicable : err := Sentinel (KOther 99%nat).
 
-(** result of the error pipeline: the error returned by ruleImpl.Execute (None =
-    nil) and the pipeline error recorded in the request context *)
-Inductive eh_res :=
-| EhRet (ret : option err) (pipeline : option err)
-| EhPanic (v : option err).
+(** result of the error pipeline: [eh_res] again — the error returned by
+    ruleImpl.Execute and the pipeline error recorded in the request context *)
+
+(** what a handler of a given kind does with a cause *)
+Definition h_sem (k : ehkind) (cause : err) : eh_res :=
+  match k with
+  | EhReal m => let hd := mech_exec m cause in EhRet (hd_ret hd) (hd_pipeline hd)
+  | EhFails e => EhRet (Some e) None
+  | EhPanics v => EhPanic v
+  | EhSilent => EhRet None None
+  | EhAny f => f cause
+  end.
 
 (** one conditionalErrorHandler.Execute: returned error + recorded pipeline error, or panic *)
 Definition eh_exec (h : ehstep) (cause : err) : eh_res :=
   match can_execute (e_if h) with
-  | Run =>
-      match e_kind h with
-      | EhReal m => let hd := mech_exec m cause in EhRet (hd_ret hd) (hd_pipeline hd)
-      | EhFails e => EhRet (Some e) None
-      | EhPanics v => EhPanic v
-      | EhSilent => EhRet None None
-      end
+  | Run => h_sem (e_kind h) cause
   | Skip => EhRet (Some not_applicable) None
   | CondFail e => EhRet (Some e) None
   | CondPanic v => EhPanic v
@@ -193,7 +214,7 @@ Definition run_rule (en : entry) (r : rule) (q : request) : rule_res :=
     upstream, or the Envoy check result *)
 Inductive answer :=
 | AHttp (status : Z) (upstream_hits : nat)
-| AAbort                                   (* panic escaped the recovery middleware: connection dropped *)
+| AAbort (upstream_hits : nat)             (* panic escaped the recovery middleware: connection dropped *)
 | AEnvoyOk                                 (* CheckResponse with OkHttpResponse, status OK *)
 | AEnvoyDenied (g : gcode) (status : Z)    (* CheckResponse with DeniedHttpResponse *)
 | AEnvoyStatus (g : gcode).                (* gRPC status error *)
@@ -205,7 +226,7 @@ Definition o0 : oracle :=
 Definition of_hfinal (f : hfinal) (accepted : Z) : answer :=
   match f with
   | HFinal s _ _ => AHttp s 0
-  | HAbort => AAbort
+  | HAbort => AAbort 0
   | HPositive => AHttp accepted 0     (* not produced by error scenarios, see C12 never_success_stack *)
   end.
 
@@ -226,18 +247,31 @@ Definition fail_answer (en : entry) (c : config) (sc : scenario) : answer :=
   end.
 
 Definition no_upstream_error : err := Chain [Sentinel KConfiguration] false.
-Definition upstream_status : Z := 200.     (* the test upstream's answer, relayed by the proxy *)
+(** ReverseProxy.ErrorHandler: "Failed to proxy request" caused by the transport's error *)
+Definition upstream_error : err := Chain [Sentinel KCommunication; Foreign 0%nat] false.
+
+Definition with_hits (n : nat) (a : answer) : answer :=
+  match a with AHttp s _ => AHttp s n | AAbort _ => AAbort n | x => x end.
+
+(** requests that reached the upstream while the answer was produced (the
+    decision and Envoy services never contact it) *)
+Definition hits_of (a : answer) : nat :=
+  match a with AHttp _ h | AAbort h => h | _ => 0%nat end.
 
 (** Finalize when no pipeline error is recorded; [upstream] = the rule.Backend
     handed to Finalize is not nil *)
-Definition positive_answer (en : entry) (c : config) (upstream : bool) : answer :=
+Definition positive_answer (en : entry) (c : config) (upstream : bool) (up : upstream_mode) : answer :=
   match en with
   | Decision =>
       (* rw.WriteHeader(responseCode) panics on an invalid code -> recovery middleware *)
       if valid_code (accepted_code c) then AHttp (accepted_code c) 0
       else fail_answer Decision c (ScPanic None)
   | Proxy =>
-      if upstream then AHttp upstream_status 1
+      if upstream then
+        match up with
+        | UpOk s => AHttp s 1        (* the upstream's answer is relayed *)
+        | UpAbort => with_hits 1 (fail_answer Proxy c (ScError upstream_error))
+        end
       else fail_answer Proxy c (ScError no_upstream_error)
   | Envoy => AEnvoyOk
   end.
@@ -247,10 +281,10 @@ Definition no_rule_error : err := Chain [Sentinel KNoRule] false.
 (** service.handler.ServeHTTP / grpcv3.Handler.Check around ruleExecutor.Execute *)
 Definition serve_rule (en : entry) (c : config) (r : rule) (q : request) : answer :=
   match run_rule en r q with
-  | ROk => positive_answer en c (backend r)
+  | ROk => positive_answer en c (backend r) (q_upstream q)
   | RErr (Some e) _ => fail_answer en c (ScError e)         (* executor error -> translator *)
   | RErr None (Some p) => fail_answer en c (ScError p)      (* Finalize returns the pipeline error *)
-  | RErr None None => positive_answer en c false            (* nothing recorded: Finalize proceeds, upstream nil *)
+  | RErr None None => positive_answer en c false (q_upstream q)   (* nothing recorded: Finalize proceeds, upstream nil *)
   | RPanic v => fail_answer en c (ScPanic v)
   end.
 
@@ -264,7 +298,8 @@ Definition serve (en : entry) (c : config) (l : lookup) (q : request) : answer :
 Definition answer_eqb (a b : answer) : bool :=
   match a, b with
   | AHttp s h, AHttp s' h' => (s =? s') && Nat.eqb h h'
-  | AAbort, AAbort | AEnvoyOk, AEnvoyOk => true
+  | AAbort h, AAbort h' => Nat.eqb h h'
+  | AEnvoyOk, AEnvoyOk => true
   | AEnvoyDenied g s, AEnvoyDenied g' s' => gcode_eqb g g' && (s =? s')
   | AEnvoyStatus g, AEnvoyStatus g' => gcode_eqb g g'
   | _, _ => false
